@@ -6,6 +6,7 @@ are distinct, that part is a coherent spec — so every theorem stated for coher
 applies to "a shipped spec restricted to its well-formed fields" (the quantifier of C02).
 -/
 import Iso8583.Spec.Coherent
+import Iso8583.Gen.Shipped
 
 namespace Iso8583
 
@@ -62,5 +63,14 @@ theorem MsgSpec.restrict_coherent (s : MsgSpec) (h : s.headOK = true) : s.restri
   rcases b with b | b
   · exact Or.inl b
   · exact Or.inr (decide_eq_true b)
+
+
+/-- the shipped specs whose MTI and bitmap definitions are coherent and whose ids are distinct -/
+def Gen.restrictable : List (String × MsgSpec) := Gen.shippedSpecs.filter (fun p => p.2.headOK)
+
+/-- **the well-formed part of every restrictable shipped spec is a coherent spec** -/
+theorem Gen.shipped_restrict_coherent (name : String) (spec : MsgSpec) (h : (name, spec) ∈ Gen.restrictable) :
+    spec.restrict.coherent = true :=
+  MsgSpec.restrict_coherent spec (List.mem_filter.mp h).2
 
 end Iso8583
